@@ -43,6 +43,19 @@ Qed.
 Lemma diags_empty_flat (k : Z) : zdiags (Flat []) [k] = Err EDiagCount.
 Proof. reflexivity. Qed.
 
+(* a list of one diagonal is kept even when that diagonal is empty *)
+Lemma diags_single_nested (d : list Z) (k : Z) : (Z.abs_nat k + length d <> 0)%nat ->
+  zdiags (Nested [d]) [k]
+  = Ok {| dim := (Z.abs_nat k + length d)%nat; dgs := [(k, d)] |}.
+Proof.
+  intros H. unfold zdiags, diags. cbn [wrap length combine Nat.eqb negb argmin fst snd forallb].
+  replace (Z.of_nat (length d) =? Z.of_nat (Z.abs_nat k + length d) - Z.abs k) with true
+    by (symmetry; apply Z.eqb_eq; lia).
+  cbn [andb]. replace ((Z.abs_nat k + length d)%nat =? 0)%nat with false
+    by (symmetry; apply Nat.eqb_neq; lia).
+  reflexivity.
+Qed.
+
 Lemma zentry_single k d n i j :
   zentry {| dim := n; dgs := [(k, d)] |} i j
   = if Z.of_nat j - Z.of_nat i =? k then nth (if 0 <=? k then i else j) d 0 else 0.
@@ -54,15 +67,14 @@ Qed.
 (* ------------------------------------------------ destroy / create / num *)
 Definition is_sup (i j : nat) : bool := (j =? S i)%nat.
 
-Lemma destroy_rad_ok N off : 2 <= N ->
+Lemma destroy_rad_ok N off : 1 <= N ->
   exists m, destroy_rad N off = Ok m /\ dim m = Z.to_nat N /\
     forall i j, (i < Z.to_nat N)%nat -> (j < Z.to_nat N)%nat ->
       zentry m i j = if is_sup i j then off + Z.of_nat j else 0.
 Proof.
   intros HN. unfold destroy_rad.
-  destruct (arange_nonempty (off + 1) (N + off)) as (x & r & E); [lia|].
-  rewrite E, diags_single. eexists; split; [reflexivity|]. rewrite <- E.
-  cbn [dim]. rewrite arange_length. split; [lia|].
+  rewrite diags_single_nested by (simpl; lia). eexists; split; [reflexivity|].
+  cbn [dim]. rewrite arange_length. split; [simpl; lia|].
   intros i j Hi Hj. rewrite zentry_single. unfold is_sup.
   destruct (Z.of_nat j - Z.of_nat i =? 1) eqn:Q.
   - apply Z.eqb_eq in Q. replace (j =? S i)%nat with true by (symmetry; apply Nat.eqb_eq; lia).
@@ -71,15 +83,14 @@ Proof.
     reflexivity.
 Qed.
 
-Lemma create_rad_ok N off : 2 <= N ->
+Lemma create_rad_ok N off : 1 <= N ->
   exists m, create_rad N off = Ok m /\ dim m = Z.to_nat N /\
     forall i j, (i < Z.to_nat N)%nat -> (j < Z.to_nat N)%nat ->
       zentry m i j = if is_sup j i then off + Z.of_nat i else 0.
 Proof.
   intros HN. unfold create_rad.
-  destruct (arange_nonempty (off + 1) (N + off)) as (x & r & E); [lia|].
-  rewrite E, diags_single. eexists; split; [reflexivity|]. rewrite <- E.
-  cbn [dim]. rewrite arange_length. split; [lia|].
+  rewrite diags_single_nested by (simpl; lia). eexists; split; [reflexivity|].
+  cbn [dim]. rewrite arange_length. split; [simpl; lia|].
   intros i j Hi Hj. rewrite zentry_single. unfold is_sup.
   destruct (Z.of_nat j - Z.of_nat i =? -1) eqn:Q.
   - apply Z.eqb_eq in Q. replace (i =? S j)%nat with true by (symmetry; apply Nat.eqb_eq; lia).
@@ -105,14 +116,16 @@ Proof.
     reflexivity.
 Qed.
 
-(* dimension 1 (and below): the constructors raise instead of returning the
-   1x1 zero operator *)
-Lemma destroy_rad_dim1 N off : N <= 1 -> destroy_rad N off = Err EDiagCount.
+(* N <= 1 (also the inadmissible N <= 0): the empty diagonal, i.e. the 1x1
+   zero operator *)
+Lemma destroy_rad_le1 N off : N <= 1 ->
+  destroy_rad N off = Ok {| dim := 1; dgs := [(1, [])] |}.
 Proof.
   intros H. unfold destroy_rad, arange.
   replace (Z.to_nat (N + off - (off + 1))) with 0%nat by lia. reflexivity.
 Qed.
-Lemma create_rad_dim1 N off : N <= 1 -> create_rad N off = Err EDiagCount.
+Lemma create_rad_le1 N off : N <= 1 ->
+  create_rad N off = Ok {| dim := 1; dgs := [(-1, [])] |}.
 Proof.
   intros H. unfold create_rad, arange.
   replace (Z.to_nat (N + off - (off + 1))) with 0%nat by lia. reflexivity.
@@ -146,16 +159,14 @@ Proof.
   now rewrite Z.div_mul by lia.
 Qed.
 
-Lemma jplus_rad_ok J : 1 <= J ->
+Lemma jplus_rad_ok J : 0 <= J ->
   exists m, jplus_rad J = Ok m /\ dim m = Z.to_nat (J + 1) /\
     forall i j, (i < Z.to_nat (J + 1))%nat -> (j < Z.to_nat (J + 1))%nat ->
       zentry m i j = if is_sup i j then (Z.of_nat i + 1) * (J - Z.of_nat i) else 0.
 Proof.
   intros HJ. unfold jplus_rad. replace (J <? 0) with false by (symmetry; apply Z.ltb_ge; lia).
-  pose proof (jplus_data_length J ltac:(lia)) as L.
-  destruct (jplus_data J) as [|x r] eqn:E; [simpl in L; lia|].
-  rewrite diags_single. eexists; split; [reflexivity|]. rewrite <- E. cbn [dim].
-  rewrite jplus_data_length by lia. split; [lia|].
+  rewrite diags_single_nested by (simpl; lia). eexists; split; [reflexivity|]. cbn [dim].
+  rewrite jplus_data_length by lia. split; [simpl; lia|].
   intros i j Hi Hj. rewrite zentry_single. unfold is_sup.
   destruct (Z.of_nat j - Z.of_nat i =? 1) eqn:Q.
   - apply Z.eqb_eq in Q. replace (j =? S i)%nat with true by (symmetry; apply Nat.eqb_eq; lia).
@@ -164,7 +175,7 @@ Proof.
     reflexivity.
 Qed.
 
-Lemma jplus_rad_spin0 : jplus_rad 0 = Err EDiagCount.
+Lemma jplus_rad_spin0 : jplus_rad 0 = Ok {| dim := 1; dgs := [(1, [])] |}.
 Proof. reflexivity. Qed.
 
 Lemma jz2_diag_ok J : 0 <= J ->
@@ -251,7 +262,7 @@ Section Alg.
      any offset >= 0; only the radicands that occur need a square root *)
   Section Ladder.
     Variables (N off : Z).
-    Hypothesis HN : 2 <= N.
+    Hypothesis HN : 1 <= N.
     Hypothesis Hoff : 0 <= off.
     Hypothesis Hsq : forall n, off < n < N + off -> sq n *r sq n = zr n.
     Variables (ma mc : mat Z).
@@ -358,14 +369,18 @@ Section Alg.
         replace (S i =? n)%nat with true by (symmetry; apply Nat.eqb_eq; lia).
         replace (N + off) with (off + Z.of_nat i + 1) by lia.
         rewrite !zr_add, zr_1. ring.
-      - lia.
+      - (* N = 1: the 1x1 zero operator *)
+        replace (i =? 0)%nat with true by (symmetry; apply Nat.eqb_eq; lia).
+        replace (S i =? n)%nat with true by (symmetry; apply Nat.eqb_eq; lia).
+        replace (N + off) with (1 + off) by lia.
+        rewrite zr_add, zr_1. ring.
     Qed.
   End Ladder.
 
   (* ---- spin operators from the radicand model, any J = 2j >= 1 *)
   Section Spin.
     Variable J : Z.
-    Hypothesis HJ : 1 <= J.
+    Hypothesis HJ : 0 <= J.
     Hypothesis Hsq : forall i, 0 <= i < J -> sq ((i + 1) * (J - i)) *r sq ((i + 1) * (J - i))
                                            = zr ((i + 1) * (J - i)).
     Variables (mp mz : mat Z).
@@ -386,7 +401,7 @@ Section Alg.
     Lemma mz_entry i j : (i < n)%nat -> (j < n)%nat ->
       zentry mz i j = if (i =? j)%nat then J - 2 * Z.of_nat i else 0.
     Proof.
-      destruct (jz2_diag_ok J ltac:(lia)) as (m & E & _ & H). rewrite Ez in E.
+      destruct (jz2_diag_ok J HJ) as (m & E & _ & H). rewrite Ez in E.
       injection E as <-. exact (H i j).
     Qed.
 
@@ -465,7 +480,8 @@ Section Alg.
       - replace (rsub rO (zr (Z.of_nat i * (J - Z.of_nat i + 1))))
           with (zr 0 -r zr (Z.of_nat i * (J - Z.of_nat i + 1))) by (now rewrite zr_0).
         rewrite <- zr_sub. f_equal. nia.
-      - lia.
+      - (* J = 0 *)
+        replace (J - 2 * Z.of_nat i) with 0 by lia. rewrite zr_0. ring.
     Qed.
 
     (* [2Jz, J+] = 2 J+   (i.e. [Jz, J+] = J+) *)
@@ -509,33 +525,40 @@ Section Alg.
         rewrite <- !zr_add, <- !zr_mul, <- zr_add. f_equal. nia.
       - replace rO with (zr 0) at 1 by apply zr_0.
         rewrite <- !zr_add, <- !zr_mul, <- zr_add. f_equal. nia.
-      - lia.
+      - (* J = 0 *)
+        replace (J - 2 * Z.of_nat i) with 0 by lia.
+        replace (J * (J + 2)) with 0 by nia. rewrite !zr_0. ring.
     Qed.
   End Spin.
 End Alg.
 
 (* ======================================================= qdiags literal flags *)
-Lemma forallb_false_imp {A} (p q : A -> bool) l :
-  (forall x, q x = true -> p x = true) -> forallb p l = false -> forallb q l = false.
+Lemma forallb_ext {A} (p q : A -> bool) l : (forall x, p x = q x) -> forallb p l = forallb q l.
+Proof. intros H. induction l as [|x r IH]; simpl; [reflexivity|now rewrite H, IH]. Qed.
+
+(* the literal flags of qdiags say exactly what holds of the entries:
+   Hermitian  <-> every entry equals its conjugate,
+   unitary    <-> every entry times its conjugate is 1,
+   a single off-diagonal is Hermitian <-> it is entirely zero, never unitary *)
+Lemma qdiags_flags_main d :
+  qdiags_flags (Flat d) [0] =
+  (Some (forallb (fun x => geqb (gconj x) x) d),
+   Some (forallb (fun x => geqb (gmul x (gconj x)) (1, 0)) d)).
 Proof.
-  intros H. induction l as [|x r IH]; simpl; [discriminate|].
-  destruct (p x) eqn:P; simpl; intros F.
-  - rewrite (IH F). apply andb_false_r.
-  - destruct (q x) eqn:Q; [|reflexivity]. rewrite (H x Q) in P. discriminate.
+  unfold qdiags_flags, gflat. cbn [Z.eqb negb]. f_equal; f_equal; apply forallb_ext; intros [a b];
+    unfold geqb, gconj, gmul; cbn [fst snd].
+  - rewrite Z.eqb_refl. cbn [andb]. destruct (b =? 0) eqn:Q.
+    + apply Z.eqb_eq in Q. symmetry. apply Z.eqb_eq. lia.
+    + apply Z.eqb_neq in Q. symmetry. apply Z.eqb_neq. lia.
+  - replace (a * - b + b * a =? 0) with true by (symmetry; apply Z.eqb_eq; lia).
+    rewrite andb_true_r. f_equal. lia.
 Qed.
 
-Lemma qdiags_flag_false_sound d :
-  fst (qdiags_flags (Flat d) [0]) = Some false -> diag_is_herm d = false.
+Lemma qdiags_flags_offdiagonal d k : k <> 0 ->
+  qdiags_flags (Flat d) [k] = (Some (diag_is_zero d), Some false).
 Proof.
-  unfold qdiags_flags, diag_is_herm, gflat. cbn [Z.eqb negb fst]. intros H. injection H as H.
-  revert H. apply forallb_false_imp. intros x Q. apply Z.eqb_eq in Q. apply Z.leb_le. lia.
-Qed.
-
-Lemma qdiags_unitary_flag_false_sound d :
-  snd (qdiags_flags (Flat d) [0]) = Some false -> diag_is_unitary d = false.
-Proof.
-  unfold qdiags_flags, diag_is_unitary, gflat. cbn [Z.eqb negb snd]. intros H. injection H as H.
-  revert H. apply forallb_false_imp. intros x Q. apply Z.eqb_eq in Q. apply Z.leb_le. lia.
+  intros Hk. unfold qdiags_flags, gflat, diag_is_zero.
+  replace (k =? 0) with false by (symmetry; apply Z.eqb_neq; lia). reflexivity.
 Qed.
 
 (* ======================================================= gate tables *)
